@@ -5,7 +5,7 @@
    any list of integers (code_at reads them as bytes).  evm.depth is 1 inside the outermost frame, so
    "depth counter <= CallCreateDepth + 1" is the Yellow Paper's "at most 1024 nested calls". *)
 From Coq Require Import ZArith List Bool String Lia.
-From V.C11 Require Import Model Gen Proofs Arith Interp Bounds.
+From V.C11 Require Import Model Gen Proofs Arith Interp Bounds Pricing Precompile.
 Import ListNotations.
 Local Open Scope Z_scope.
 
@@ -40,6 +40,67 @@ Theorem C11_dynamic_gas_no_wrap :
   dyn_ok p026 k w (surcharge name s) r.
 Proof. exact dyn_gas_sound. Qed.
 Print Assumptions C11_dynamic_gas_no_wrap.
+
+(* the memory accesses the go/ast extractor reads off an execute function's body (compared with exec_info on
+   every run by exec_matches) stay inside the declared regions: an access that acc_justified accepts lies in
+   memory whenever the declared regions do and the function's own guards let it through *)
+Theorem C11_extracted_access_in_bounds :
+  forall guards regs s mlen i c sz,
+  acc_justified guards regs (i, c, sz) = true -> nonneg_stack s ->
+  (forall r, In r regs -> region_len s r = 0 \/ sget s (fst r) + region_len s r <= mlen) ->
+  (forall g, In g guards -> snd g <= sget s (fst g)) ->
+  access_len s (i, c, sz) = 0 \/ sget s i + c + access_len s (i, c, sz) <= mlen.
+Proof. exact acc_justified_sound. Qed.
+Print Assumptions C11_extracted_access_in_bounds.
+
+(* what growing memory costs, exactly (F = mem_fee, grow k w = F(max k w) - F(k), m = 30 under Proposal026
+   else 1): m * grow through memoryGasCost alone; m * (m * grow + per-unit part) through the copy / LOG / SHA3 /
+   CREATE2 gas functions — 900 * grow + 90 per copied word under Proposal026, grow + 3 per word before —
+   and a refusal only when the price does not fit 64 bits *)
+Theorem C11_memory_price_exact :
+  (forall p mlen fee k w g fee', memok mlen fee k -> 0 <= w ->
+     memory_gas_cost p mlen fee (32 * w) = Some (g, fee') -> g = magn p * grow k w) /\
+  (forall p mlen fee k w words c fee' t, memok mlen fee k -> 0 <= w -> 0 <= words ->
+     copier_gas magnify p mlen fee (32 * w) words = Some (c, fee', t) ->
+     c = magn p * (magn p * grow k w + 3 * to_word_size words) /\ t = 0 /\ c < U64) /\
+  (forall p mlen fee k w size c fee' t, memok mlen fee k -> 0 <= w -> 0 <= size ->
+     hash_gas magnify p mlen fee (32 * w) size = Some (c, fee', t) ->
+     c = magn p * (magn p * grow k w + 6 * to_word_size size) /\ t = 0) /\
+  (forall p n mlen fee k w size c fee' t, memok mlen fee k -> 0 <= w -> 0 <= size -> 0 <= n ->
+     log_gas magnify p n mlen fee (32 * w) size = Some (c, fee', t) ->
+     c = magn p * (magn p * grow k w + 375 + 375 * n + 8 * size) /\ t = 0).
+Proof. split; [exact pure_price|split; [exact copier_price|split; [exact hash_price|exact log_price]]]. Qed.
+Print Assumptions C11_memory_price_exact.
+
+Theorem C11_copier_price_p026 : forall mlen fee k w words c fee' t,
+  memok mlen fee k -> 0 <= w -> 0 <= words ->
+  copier_gas magnify true mlen fee (32 * w) words = Some (c, fee', t) -> c = 900 * grow k w + 90 * to_word_size words.
+Proof. exact copier_price_p026. Qed.
+Print Assumptions C11_copier_price_p026.
+
+Theorem C11_copier_refuses_only_overflow : forall p mlen fee k w words,
+  memok mlen fee k -> 0 <= w -> 32 * w <= MEM_LIMIT -> 0 <= words < U64 ->
+  copier_gas magnify p mlen fee (32 * w) words = None ->
+  U64 <= magn p * (magn p * grow k w + 3 * to_word_size words) \/ U64 <= magn p * grow k w + 3 * to_word_size words
+  \/ U64 <= to_word_size words * 3.
+Proof. exact copier_refuses_only_overflow. Qed.
+Print Assumptions C11_copier_refuses_only_overflow.
+
+(* the RequiredGas functions of the 18 precompiled contracts: total, no uint64 wrap-around for any input that
+   fits EVM memory, modexp saturating at MaxUint64; RunPrecompiledContract never returns more gas than supplied *)
+Theorem C11_precompile_gas_no_wrap : forall addr input, bytes_ok input -> zlen input < 2 ^ 32 ->
+  pre_gas addr input = pre_gas_ideal addr input /\ 0 <= pre_gas addr input < U64.
+Proof. exact pre_gas_no_wrap. Qed.
+Print Assumptions C11_precompile_gas_no_wrap.
+
+Theorem C11_modexp_gas_bounded : forall input, bytes_ok input -> 0 <= modexp_gas input <= MAXU64.
+Proof. exact modexp_gas_bounded. Qed.
+Print Assumptions C11_modexp_gas_bounded.
+
+Theorem C11_precompile_run_gas_bounded : forall cost supplied r,
+  0 <= cost -> 0 <= supplied < U64 -> run_precompile_gas cost supplied = Some r -> 0 <= r <= supplied.
+Proof. exact run_precompile_gas_bounded. Qed.
+Print Assumptions C11_precompile_run_gas_bounded.
 
 Section Machine.
   Context {W : Type}.
